@@ -247,6 +247,37 @@ def native_history(ck):
         if bad:
             fails.append({"obligation": "bounded.history", "clause": bad[0], "input": {"etau_frac set before this call": frac, "calls on this object so far": n // m, "table_version": "3"}, "observed": bad[1]})
             break
+    # the diagnostic plots attached to the stage are observers: requesting them (each one, and all together) changes neither the returned
+    # columns nor what is stored
+    try:
+        import matplotlib
+
+        matplotlib.use("Agg", force=True)
+        import matplotlib.pyplot as plt
+        import warnings
+
+        t2 = C05.fresh_taus("3")
+        np.random.seed(ck.seed + 4)
+        with np.errstate(all="ignore"):
+            plain = [np.array(x, dtype=float) for x in t2(beta.copy(), loge.copy())]
+        names = ["taus_density_beta", "taus_histogram", "taus_pexit", "taus_overview"]
+        for req in names + [names]:
+            stored = {}
+            np.random.seed(ck.seed + 4)
+            with np.errstate(all="ignore"), warnings.catch_warnings():
+                warnings.simplefilter("ignore")
+                out = t2(beta.copy(), loge.copy(), plot=req, store=lambda nm, cols: stored.update(zip(nm, cols)))
+                plt.close("all")
+            n += m
+            diff = [nm for nm, a, b in zip(("tauBeta", "tauLorentz", "tauEnergy", "showerEnergy", "tauExitProb"), out, plain) if not np.array_equal(np.asarray(a, float), b)]
+            diff += ["stored " + nm for nm, b in zip(("tauBeta", "tauLorentz", "tauEnergy", "showerEnergy", "tauExitProb"), plain) if nm in stored and not np.array_equal(np.asarray(stored[nm], float), b)]
+            if diff:
+                j = ("tauBeta", "tauLorentz", "tauEnergy", "showerEnergy", "tauExitProb").index(diff[0].replace("stored ", ""))
+                fails.append({"obligation": "bounded.history", "clause": "requesting a diagnostic plot does not change the columns the stage returns and stores", "input": {"plot": req, "events": m, "seed": ck.seed + 4},
+                              "observed": {"columns that differ from the call without plot": diff, "first value with plot": float(np.asarray(out[j], float)[0]), "without": float(plain[j][0])}})
+                break
+    except ImportError:
+        pass
     return {"evaluations": n, "failures": fails}
 
 
